@@ -2,7 +2,11 @@
      cov-enc ((gid idx) ...)      -> (ok xBYTES len) | panic
      cov-read xBYTES pos          -> (ok ((gid idx runlen) ...)) | err | panic
      cd-enc ((gid class len) ...) -> (ok xBYTES appendlen) | (panic appendlen)
-     cd-read xBYTES pos           -> (ok ((gid class runlen) ...)) | err | panic *)
+     cd-read xBYTES pos           -> (ok ((gid class runlen) ...)) | err | panic
+     ll-enc ((type flags mfs (sub ...)) ...)  -> (ok xBYTES) | (ok len md5) | panic
+     ll-rt  ((type flags mfs (sub ...)) ...)  -> encode, then read: (ok ((type flags mfs (pos ...)) ...)) | panic | err
+     ll-read xBYTES pos extType   -> (ok ((type flags mfs (pos ...)) ...)) | err
+       sub = (b size seed) | (gsub xHEX) | (gpos xHEX) | (ctx xHEX) *)
 
 let outc (f : 'a -> sx) (o : 'a outcome) : sx =
   match o with
@@ -44,6 +48,39 @@ let pairs_of_cruns (x : sx) : (n * n) list =
       List.init n (fun k -> (n_of_int (g + k), n_of_int c))
     | _ -> failwith "bad run") (lst x)
 
+(* ---- lookup lists ---- *)
+(* synthetic blob: byte k = (seed + 7k + (k lsr 8)) land 255 *)
+let blob size seed = List.init size (fun k -> n_of_int ((seed + 7 * k + (k lsr 8)) land 255))
+
+(* sub = (b size seed) | (gsub xHEX) | (gpos xHEX) | (ctx xHEX); returns (kind, bytes) *)
+let sub_of_sx x = match x with
+  | L [A "b"; sz; sd] -> (0, blob (sx_int sz) (sx_int sd))
+  | L [A "gsub"; h] -> (1, sx_bytes h)
+  | L [A "gpos"; h] -> (2, sx_bytes h)
+  | L [A "ctx"; h] -> (3, sx_bytes h)
+  | _ -> failwith "bad subtable"
+
+let lookups_of_sx x =
+  List.map (fun l -> match l with
+    | L [tp; fl; mfs; subs] ->
+      let ss = List.map sub_of_sx (lst subs) in
+      ({ lk_type = sx_n tp; lk_flags = sx_n fl; lk_mfs = sx_n mfs; lk_subs = List.map snd ss },
+       (sx_n tp, List.map (fun (k, _) -> n_of_int k) ss))
+    | _ -> failwith "bad lookup") (lst x)
+
+let string_of_bytes (b : n list) : string =
+  let buf = Buffer.create (List.length b) in
+  List.iter (fun x -> Buffer.add_char buf (Char.chr (int_of_n x))) b;
+  Buffer.contents buf
+
+let bytes_obs (b : n list) : sx =
+  let len = List.length b in
+  if len <= 300 then L [A "ok"; A (hex_of_bytes b)]
+  else L [A "ok"; ai len; A (Digest.to_hex (Digest.string (string_of_bytes b)))]
+
+let obs_lookups (l : lookup_obs list) : sx =
+  L [A "ok"; L (List.map (fun o -> L [an o.lo_type; an o.lo_flags; an o.lo_mfs; L (List.map an o.lo_subpos)]) l)]
+
 let pair_nz x = match x with L [g; i] -> (sx_n g, sx_z i) | _ -> failwith "bad pair"
 
 let () = main_loop (fun c ->
@@ -67,4 +104,15 @@ let () = main_loop (fun c ->
   | [A "cd-read"; data; pos] ->
     outc (fun l -> L [A "ok"; cruns_of_pairs (List.map (fun (g, i) -> (int_of_n g, int_of_n i)) l)])
       (m_cd_read (sx_bytes data) (sx_n pos))
+  | [A "ll-enc"; lks] ->
+    let l = lookups_of_sx lks in
+    outc bytes_obs (m_ll_encode (List.map fst l) (m_find_ext (List.map snd l)))
+  | [A "ll-rt"; lks] ->
+    let l = lookups_of_sx lks in
+    let ext = m_find_ext (List.map snd l) in
+    (match m_ll_encode (List.map fst l) ext with
+     | Ok b -> outc obs_lookups (m_ll_read b N0 ext)
+     | Panic -> A "panic" | Err -> A "err" | OutOfFuel -> A "fuel")
+  | [A "ll-read"; data; pos; ext] ->
+    outc obs_lookups (m_ll_read (sx_bytes data) (sx_n pos) (sx_n ext))
   | _ -> failwith "bad case")
